@@ -6,48 +6,83 @@
    the template's default, and a subscribed template is notified after every change of anything it
    read, so it never keeps a stale value.
 
-   Domain of the theorems: expressions of [expr] (constants, parameters, reads of machine variables /
-   settings / player variables / device attributes, BinOp, UnaryOp, single Compare, BoolOp, IfExp)
-   over the values None / bool / int / str.  Floats, tuples, subscripts and '%' formatting are not in
-   the Coq model (they are exercised on the implementation by the oracle-only suite; NOTES.md).
-   [operators], [comparisons], [bool_operators] are gen/Tables.v, regenerated from the dict literals
-   of mpf/core/placeholder_manager.py on every run.
+   Domain of the theorems: expressions of [expr] (constants incl. floats, parameters, reads of machine
+   variables / settings / device attributes / current_player.x / players[i].x / mode.m.a / game.a,
+   BinOp, UnaryOp, single Compare, BoolOp, IfExp, tuple displays, subscripts) over the values
+   None / bool / int / float / str / tuple.  Floats are exact rationals with explicit binary64 rounding
+   (normal range; float ** , inf, nan, '%' formatting are [Unsup] and never fed to the model).
+   [operators], [comparisons], [bool_operators], [node_methods] are gen/Tables.v, regenerated from
+   mpf/core/placeholder_manager.py on every run.
 
-   The model is of the code with fixes/C16-*.patch applied.  One part of the full statement stays
-   false of the faithful model: a change that is not announced (a player variable set to None posts no
-   player_<name> event) leaves the subscriber stale - [stale_after_unannounced_change_refuted];
-   [no_stale_value_partial] is the statement guarded by exactly that class ([honest_run]). *)
+   The model is of the code with fixes/C16-*.patch applied.  Two parts of the full statement stay false
+   of the faithful model and are kept as witnesses:
+   * a change that is not announced (a player variable set to None posts no player_<name> event) leaves the
+     subscriber stale - [stale_after_unannounced_change_refuted]; [no_stale_value_partial] is the statement
+     guarded by exactly that class ([honest_run]: every cell a change alters keeps its content or is
+     announced), [no_stale_value_plain] is the FULL statement for int/str valued stores and
+     [lifecycle_and_removal_always_announced] says only value-setting changes can be unannounced;
+   * evaluate_and_subscribe with a missing PARAMETER raises (by design) - [missing_parameter_subscribed_refuted].
+   The game-end defect repaired by fixes/C16-player-placeholder-game-end.patch is
+   [stale_after_game_end_unfixed_refuted]. *)
 From Common Require Import Prelude.
 From C16 Require Import Model Lemmas.
 Open Scope Z_scope.
 
 (* MPF's walk with the translated tables computes Python's value, for every supported expression,
-   every environment, with and without subscription. *)
+   every environment, with and without subscription (when subscribing: no mode.* / game.* inside). *)
 Theorem eval_equals_python_allops :
   forall (sub : bool) (en : env) (e : expr) (v : value),
-    supported e = true -> py_eval en e = PVal v -> fst (tmpl_eval sub en e) = TVal v.
+    supported e = true -> (sub = false \/ subscribable e = true) ->
+    py_eval en e = PVal v -> fst (tmpl_eval sub en e) = TVal v.
 Proof. exact eval_equals_python_allops_l. Qed.
 Print Assumptions eval_equals_python_allops.
 Example eval_equals_python_allops_sat :
-  supported ex_expr = true /\ py_eval ex_env ex_expr = PVal (VInt 14).
+  (supported ex_expr = true /\ subscribable ex_expr = true) /\ py_eval ex_env ex_expr = PVal (VInt 14).
 Proof. exact (conj ex_supported ex_value). Qed.
 Print Assumptions eval_equals_python_allops_sat.
+Example eval_equals_python_allops_sat_float :
+  py_eval ex_env (EBin KAdd (EFlt 3602879701896397 36028797018963968) (EFlt 3602879701896397 18014398509481984))
+  = PVal (VFloat 1351079888211149 4503599627370496).
+Proof. exact ex_float. Qed.
+Print Assumptions eval_equals_python_allops_sat_float.
+Example eval_equals_python_allops_sat_tuple :
+  supported ex_tuple_expr = true /\ py_eval ex_env ex_tuple_expr = PVal (VFloat 5 2) /\
+  tmpl_eval true ex_env ex_tuple_expr = (TVal (VFloat 5 2), []).
+Proof. exact ex_tuple. Qed.
+Print Assumptions eval_equals_python_allops_sat_tuple.
 
 (* ... and in every other case MPF's walk ends in exactly the exception class that corresponds to
-   Python's (TypeError -> TemplateEvalError, missing parameter -> ValueError, ...). *)
+   Python's (TypeError -> TemplateEvalError, missing parameter -> ValueError, IndexError -> crash ...). *)
 Theorem walk_matches_python_in_all_cases :
-  forall sub en e, supported e = true -> fst (tmpl_eval sub en e) = expected sub (py_eval en e).
+  forall sub en e, supported e = true -> (sub = false \/ subscribable e = true) ->
+    fst (tmpl_eval sub en e) = expected sub (py_eval en e).
 Proof. exact tmpl_matches_python. Qed.
 Print Assumptions walk_matches_python_in_all_cases.
 
-(* typed templates (raw / bool / int): evaluate() delivers the converted Python value, the default for None *)
+(* the dispatch on type(node) reaches the walker of every node class of the grammar *)
+Theorem dispatch_reaches_every_walker :
+  forall k m, In (k, m) [(NConstant, M_eval_constant); (NName, M_eval_name); (NAttribute, M_eval_attribute);
+                         (NSubscript, M_eval_subscript); (NBinOp, M_eval_bin_op); (NUnaryOp, M_eval_unary_op);
+                         (NCompare, M_eval_compare); (NBoolOp, M_eval_bool_op); (NIfExp, M_eval_if);
+                         (NTuple, M_eval_tuple)] ->
+  forall r, dispatch k m r = r.
+Proof. exact dispatch_table_ok. Qed.
+Print Assumptions dispatch_reaches_every_walker.
+
+(* a value returned by the walk is Python's value, without any guard on what is subscribable *)
+Theorem walk_value_is_python_value :
+  forall sub en e v s, supported e = true -> tmpl_eval sub en e = (TVal v, s) -> py_eval en e = PVal v.
+Proof. exact val_inv. Qed.
+Print Assumptions walk_value_is_python_value.
+
+(* typed templates (raw / bool / int / float): evaluate() delivers the converted Python value, the default for None *)
 Theorem evaluate_equals_python :
   forall k d en e v, supported e = true -> py_eval en e = PVal v -> evaluate k d en e = deliver k d v.
 Proof. exact evaluate_equals_python_l. Qed.
 Print Assumptions evaluate_equals_python.
 
 Theorem subscribed_evaluation_equals_python :
-  forall k d en e v, supported e = true -> py_eval en e = PVal v ->
+  forall k d en e v, supported e = true -> subscribable e = true -> py_eval en e = PVal v ->
     fst (evaluate_and_subscribe k d en e) = match v with VNone => convert k d | _ => convert k v end.
 Proof. exact subscribed_equals_python_l. Qed.
 Print Assumptions subscribed_evaluation_equals_python.
@@ -60,23 +95,48 @@ Theorem type_error_gives_default :
 Proof. exact type_error_gives_default_l. Qed.
 Print Assumptions type_error_gives_default.
 Example type_error_gives_default_sat :
-  py_eval ex_env (EUn KUSub (ERead (LMachine [98]))) = PTypeErr.
+  py_eval ex_env (EUn KUSub (ERead (RCell (LMachine [98])))) = PTypeErr.
 Proof. exact ex_type_error. Qed.
 Print Assumptions type_error_gives_default_sat.
 
-(* Full statement for evaluate_and_subscribe would include PNameErr; the code deliberately raises
-   AssertionError for a missing parameter when subscribing (evaluate_and_subscribe_template), which the
-   model reproduces: proved for TypeError and unreadable variables. *)
+(* evaluate_and_subscribe: COMPLETE characterisation of the delivered outcome by Python's result *)
+Theorem subscribed_outcome_characterised :
+  forall k d en e, supported e = true -> subscribable e = true ->
+    fst (evaluate_and_subscribe k d en e) = outcome_of k d (expected true (py_eval en e)).
+Proof. exact subscribed_outcome_l. Qed.
+Print Assumptions subscribed_outcome_characterised.
+
+(* FULL statement would be: TypeError, unreadable variable AND missing parameter give the (converted) default.
+   Proved for the first two; the third is false of the code by design (next theorem): what remains is exactly
+   py_eval = PNameErr. *)
 Theorem type_error_gives_default_subscribed_partial :
-  forall k d en e, supported e = true ->
+  forall k d en e, supported e = true -> subscribable e = true ->
     (py_eval en e = PTypeErr \/ py_eval en e = PReadErr) ->
     fst (evaluate_and_subscribe k d en e) = convert k d.
 Proof. exact type_error_gives_default_subscribed_l. Qed.
 Print Assumptions type_error_gives_default_subscribed_partial.
 
-(* every location Python's evaluation reads has a subscription in the returned list *)
+Theorem missing_parameter_subscribed_raises :
+  forall k d en e, supported e = true -> subscribable e = true -> py_eval en e = PNameErr ->
+    fst (evaluate_and_subscribe k d en e) = OAssert.
+Proof. exact missing_parameter_subscribed_l. Qed.
+Print Assumptions missing_parameter_subscribed_raises.
+Theorem missing_parameter_subscribed_refuted :
+  exists k d en e, supported e = true /\ subscribable e = true /\ py_eval en e = PNameErr /\
+    fst (evaluate_and_subscribe k d en e) = OAssert /\ evaluate k d en e = OVal d.
+Proof. exact missing_parameter_subscribed_refuted_ex. Qed.
+Print Assumptions missing_parameter_subscribed_refuted.
+
+(* mode.* and game.* have no subscribe(): a subscribed evaluation raises, it never returns a (possibly stale) value *)
+Theorem unsubscribable_read_raises :
+  forall k d en r, unsubscribable r = true -> evaluate_and_subscribe k d en (ERead r) = (OAssert, []).
+Proof. exact unsubscribable_read_raises_l. Qed.
+Print Assumptions unsubscribable_read_raises.
+
+(* every cell Python's evaluation reads is behind a channel of the returned subscription list *)
 Theorem subscriptions_cover_reads :
-  forall en e v s, supported e = true -> tmpl_eval true en e = (TVal v, s) -> incl (reads en e) s.
+  forall en e v s, supported e = true -> tmpl_eval true en e = (TVal v, s) ->
+    forall l, In l (reads en e) -> In (chan_of l) s.
 Proof. exact subscriptions_cover_reads_l. Qed.
 Print Assumptions subscriptions_cover_reads.
 Example subscriptions_cover_reads_sat :
@@ -84,21 +144,29 @@ Example subscriptions_cover_reads_sat :
 Proof. exact ex_tmpl. Qed.
 Print Assumptions subscriptions_cover_reads_sat.
 
-(* also when the result is the default after a TemplateEvalError: as long as no subscribed location
-   changes, a re-evaluation gives the same outcome (or raises) *)
+(* ... and those are real channels: a subscribed evaluation that returns a value read no mode / game attribute *)
+Theorem subscribed_value_reads_subscribable :
+  forall en e v s, supported e = true -> tmpl_eval true en e = (TVal v, s) ->
+    forall l, In l (reads en e) -> is_channel (chan_of l) = true.
+Proof. exact subscribed_value_reads_subscribable_l. Qed.
+Print Assumptions subscribed_value_reads_subscribable.
+
+(* also when the result is the default after a TemplateEvalError: as long as no cell behind a subscribed
+   channel changes, a re-evaluation gives the same outcome (or raises) *)
 Theorem outcome_determined_by_subscriptions :
-  forall e en en' r s,
+  forall e en en' r s, supported e = true ->
     tmpl_eval true en e = (r, s) -> tres_ok r = true -> agree_on s en en' ->
     fst (tmpl_eval true en' e) = r \/ tres_ok (fst (tmpl_eval true en' e)) = false.
 Proof. exact outcome_determined_by_subscriptions_l. Qed.
 Print Assumptions outcome_determined_by_subscriptions.
 
-(* FULL statement: for every history of changes, the value last delivered to the consumer of the
-   re-evaluate / re-subscribe loop equals the evaluation on the current store.
-   False of the faithful model for changes that are not announced (next theorem); proved for every
-   history whose changes are announced or leave the value read at the location unchanged. *)
+(* FULL statement: for every history of changes (values written to machine variables, settings, device
+   attributes, any player's variables; removal; game start, add player, turn hand-over, game end), the value
+   last delivered to the consumer of the re-evaluate / re-subscribe loop equals the evaluation on the current
+   store.  False of the faithful model for changes that are not announced (refuted below); proved for every
+   history whose changes are announced or leave the cells they write unchanged. *)
 Theorem no_stale_value_partial :
-  forall k d e en cs, honest_run en cs = true ->
+  forall k d e en cs, supported e = true -> honest_run en cs = true ->
     let st := hfinal k d e (en, subscribe_now k d en e) cs in
     (forall v, last (snd st) <> OVal v)
     \/ fst (evaluate_and_subscribe k d (fst st) e) = last (snd st)
@@ -112,10 +180,46 @@ Example no_stale_value_partial_sat :
 Proof. exact (conj ex_honest ex_history). Qed.
 Print Assumptions no_stale_value_partial_sat.
 
+(* the guard narrowed: game-lifecycle changes and removals are ALWAYS announced; only a value written to a
+   variable / attribute can go unannounced ... *)
+Theorem lifecycle_and_removal_always_announced :
+  forall en c, (lifecycle c = true \/ exists n, c = CRemoveMachine n) -> honest en c = true.
+Proof. exact lifecycle_and_removal_honest. Qed.
+Print Assumptions lifecycle_and_removal_always_announced.
+
+(* ... and it cannot when the store holds ints and strings: the FULL statement, no guard on the history *)
+Theorem no_stale_value_plain :
+  forall k d e en cs, supported e = true -> plain_store en = true -> forallb plain_change cs = true ->
+    let st := hfinal k d e (en, subscribe_now k d en e) cs in
+    (forall v, last (snd st) <> OVal v)
+    \/ fst (evaluate_and_subscribe k d (fst st) e) = last (snd st)
+    \/ (forall v, fst (evaluate_and_subscribe k d (fst st) e) <> OVal v).
+Proof. exact no_stale_value_plain_l. Qed.
+Print Assumptions no_stale_value_plain.
+Example no_stale_value_plain_sat :
+  supported game_expr = true /\ plain_store game_env = true /\ forallb plain_change game_changes = true /\
+  hrun KRaw (VInt 77) game_expr (game_env, subscribe_now KRaw (VInt 77) game_env game_expr) game_changes
+  = [(true, OVal (VInt 77)); (true, OVal (VInt 77)); (true, OVal (VInt 104)); (true, OVal (VInt 1100));
+     (true, OVal (VInt 1005)); (false, OVal (VInt 1005)); (true, OVal (VInt 77))].
+Proof. exact ex_game. Qed.
+Print Assumptions no_stale_value_plain_sat.
+
 Theorem stale_after_unannounced_change_refuted :
   exists k d e en cs,
     let st := hfinal k d e (en, subscribe_now k d en e) cs in
-    honest_run en cs = false /\
+    supported e = true /\ honest_run en cs = false /\
     last (snd st) = OVal (VInt 5) /\ fst (evaluate_and_subscribe k d (fst st) e) = OVal (VInt 77).
 Proof. exact stale_after_unannounced_change_refuted_ex. Qed.
 Print Assumptions stale_after_unannounced_change_refuted.
+
+(* the code without fixes/C16-player-placeholder-game-end.patch ([announced_unfixed]): an int-valued history
+   (so [no_stale_value_plain] would apply) after which current_player.score still delivers 70 while the
+   template evaluates to its default 77; the fixed model delivers 77 *)
+Theorem stale_after_game_end_unfixed_refuted :
+  exists k d e en cs,
+    let st := hfinal_gen announced_unfixed k d e (en, subscribe_now k d en e) cs in
+    supported e = true /\ forallb plain_change cs = true /\ plain_store en = true /\
+    last (snd st) = OVal (VInt 70) /\ fst (evaluate_and_subscribe k d (fst st) e) = OVal (VInt 77) /\
+    last (snd (hfinal k d e (en, subscribe_now k d en e) cs)) = OVal (VInt 77).
+Proof. exact stale_after_game_end_unfixed_refuted_ex. Qed.
+Print Assumptions stale_after_game_end_unfixed_refuted.
